@@ -154,6 +154,21 @@ func (g *Gen) log1pArg() d128.Decimal {
 func genC16(g *Gen) {
 	g.setMode(0)
 	ops := []string{"Exp", "Exp2", "Exp10", "Expm1", "Log", "Log2", "Log10", "Log1p"}
+	// every integer argument in [-300, 300] (and a half-step offset): the internal case splits of the exponential functions
+	// sit at particular magnitudes of e^x (where it vanishes against 1, where digits are dropped), a few units wide
+	sweepOps := []string{"Expm1", "Exp"}
+	if g.thorough() {
+		sweepOps = []string{"Expm1", "Exp", "Exp2", "Exp10"}
+	}
+	g.gridRun(601*len(sweepOps), 0.3, func(i int) {
+		n := i%601 - 300
+		c := big.NewInt(int64(absInt(n)))
+		x := mk(n < 0, c, 0)
+		if g.r.Intn(2) == 0 && n != 0 {
+			x = mk(n < 0, new(big.Int).Add(new(big.Int).Mul(c, big.NewInt(10)), big.NewInt(int64(g.r.Intn(10)))), -1)
+		}
+		g.un(sweepOps[i/601], x)
+	})
 	for !g.w.full() {
 		op := ops[g.r.Intn(len(ops))]
 		switch op {
